@@ -123,8 +123,9 @@ func (l Labels) Equal(b Labels) bool {
 	if len(l) != len(b) {
 		return false
 	}
-	for k := range l {
-		if l[k] != b[k] {
+	for k, v := range l {
+		// A key missing from b is not the same as an empty value.
+		if w, ok := b[k]; !ok || v != w {
 			return false
 		}
 	}
